@@ -111,4 +111,7 @@ class TracesParser:
     def _feed_single_event(self, event, state):
         for eventid in state.get(event.tid, {}):
             state[event.tid][eventid].append(event)
+        if event.func_qualifier == DgbFuncQual.DBG_FUNC_NONE.value and event.eventid in state.get(event.tid, {}):
+            # Continuation chunk of an on-going multi-record event (path lookup, string), parsed when it ends.
+            return None
         return self.parse_event_list([event])
